@@ -12,6 +12,7 @@
 #include <cstring>
 #include <string>
 #include <sstream>
+#include <vector>
 #include <fstream>
 #include <map>
 #include <set>
@@ -63,9 +64,11 @@ static std::string viol_json(const Violation &v) {
     return o.str();
 }
 
+static int64_t g_child_start = -1;      // first run index executed by the current long-lived child (its history starts there)
+
 static std::string result_json(const Plan &p, const RunResult &r, bool with_counts) {
     std::ostringstream o;
-    o << "{\"run\":" << p.run << ",\"ok\":" << (r.viol.empty() ? "true" : "false") << ",\"viol\":[";
+    o << "{\"run\":" << p.run << ",\"child_start\":" << g_child_start << ",\"ok\":" << (r.viol.empty() ? "true" : "false") << ",\"viol\":[";
     for (size_t i = 0; i < r.viol.size(); i++) { if (i) o << ","; o << viol_json(r.viol[i]); }
     o << "],\"log_hash\":\"" << std::hex << r.log_hash << std::dec << "\",\"lib_calls\":" << r.lib_calls << ",\"nops\":" << p.ops.size() << ",\"cold\":" << (p.cold ? 1 : 0);
     if (with_counts) {
@@ -91,35 +94,70 @@ static bool read_file(const std::string &path, std::string &out) {
     return true;
 }
 
+static bool g_no_cold = false;
+static bool is_cold_index(uint64_t seed, uint64_t run) { return !g_no_cold && mix64(seed ^ 0xC01DULL, run) % 40 == 0; }
+
 static int cmd_gen(const std::map<std::string, std::string> &a) {
     uint64_t seed = strtoull(a.count("seed") ? a.at("seed").c_str() : "1", nullptr, 10);
     uint64_t run = strtoull(a.count("run") ? a.at("run").c_str() : "0", nullptr, 10);
+    if (a.count("list-warm")) {       // run indices of [from, to) that a long-lived worker child executes (the others are cold-start runs)
+        uint64_t f = strtoull(a.count("from") ? a.at("from").c_str() : "0", nullptr, 10), t = strtoull(a.count("to") ? a.at("to").c_str() : "0", nullptr, 10);
+        for (uint64_t i = f; i < t; i++) if (!is_cold_index(seed, i)) printf("%llu\n", (unsigned long long)i);
+        return 0;
+    }
     if (a.count("sweep-total")) { printf("%llu\n", (unsigned long long)sweep_total(gen_options(a).profile, seed)); return 0; }
     Plan p = a.count("sweep") ? generate_sweep_plan(seed, run, gen_options(a)) : generate_plan(seed, run, gen_options(a));
     fputs(p.to_jsonl().c_str(), stdout);
     return 0;
 }
 
+// A replay file holds one plan, or several: the plans are then executed one after the other in the same process and
+// the last one is the run under scrutiny (its predecessors are the history of the worker process that first executed it -
+// needed only when the library keeps state across sessions in static storage).
+static std::vector<std::string> split_plans(const std::string &text) {
+    std::vector<std::string> out; std::string cur;
+    std::istringstream in(text); std::string line;
+    while (std::getline(in, line)) {
+        if (line.rfind("{\"v\":", 0) == 0 && !cur.empty()) { out.push_back(cur); cur.clear(); }
+        if (line.empty() || line[0] == '#') continue;
+        cur += line; cur += "\n";
+    }
+    if (!cur.empty()) out.push_back(cur);
+    return out;
+}
+
 static int cmd_exec(const std::map<std::string, std::string> &a) {
     std::string text, err;
     if (!a.count("plan") || !read_file(a.at("plan"), text)) { fprintf(stderr, "fecsim exec: cannot read plan\n"); return 2; }
-    Plan p;
-    if (!Plan::from_jsonl(text, p, err)) { fprintf(stderr, "fecsim exec: %s\n", err.c_str()); return 2; }
-    ExecOptions eo;
-    eo.profile = a.count("profile") ? a.at("profile") : p.profile;
-    eo.trace = a.count("trace") > 0;
-    eo.check_indep = eo.profile == "C12" || a.count("indep");
+    std::vector<Plan> plans;
+    for (auto &t : split_plans(text)) {
+        Plan p;
+        if (!Plan::from_jsonl(t, p, err)) { fprintf(stderr, "fecsim exec: %s\n", err.c_str()); return 2; }
+        plans.push_back(p);
+    }
+    if (plans.empty()) { fprintf(stderr, "fecsim exec: empty plan file\n"); return 2; }
     FILE *out = a.count("out") ? fopen(a.at("out").c_str(), "w") : nullptr;
-    int tracefd = dup(2);
-    if (!eo.trace) quiet_stdio();
+    bool trace = a.count("trace") > 0;
+    if (!trace) quiet_stdio();
     else { int fd = open("/dev/null", O_WRONLY); dup2(fd, 1); close(fd); }
-    (void)tracefd;
-    static StatusPage page; g_status = &page; page.run = (int64_t)p.run;
-    if (!p.cold || a.count("warm")) shim_warm_rs();
-    alarm(a.count("timeout") ? atoi(a.at("timeout").c_str()) : 60);
-    RunResult r = execute_plan(p, eo);
-    alarm(0);
-    std::string js = result_json(p, r, true);
+    static StatusPage page; g_status = &page;
+    if (!plans[0].cold || a.count("warm") || plans.size() > 1) shim_warm_rs();
+    RunResult r; 
+    Hash64 chain;
+    for (size_t i = 0; i < plans.size(); i++) {
+        const Plan &p = plans[i];
+        ExecOptions eo;
+        eo.profile = a.count("profile") ? a.at("profile") : p.profile;
+        eo.trace = trace && i + 1 == plans.size();
+        eo.check_indep = eo.profile == "C12" || a.count("indep");
+        page.run = (int64_t)p.run;
+        alarm(a.count("timeout") ? atoi(a.at("timeout").c_str()) : 60);
+        r = execute_plan(p, eo);
+        alarm(0);
+        chain.u64(r.log_hash);
+    }
+    if (plans.size() > 1) r.log_hash = chain.h;
+    std::string js = result_json(plans.back(), r, true);
     if (out) { fputs(js.c_str(), out); fputc('\n', out); fclose(out); }
     return r.viol.empty() ? 0 : 1;
 }
@@ -146,8 +184,7 @@ struct Agg {
     }
 };
 
-static bool g_no_cold = false;
-static bool is_cold_index(uint64_t seed, uint64_t run) { return !g_no_cold && mix64(seed ^ 0xC01DULL, run) % 40 == 0; }
+
 
 static bool g_sweep = false;
 static void run_one(uint64_t seed, uint64_t run, const GenOptions &go, bool cold_process, FILE *out, Agg &agg, bool per_run) {
@@ -198,12 +235,38 @@ static int cmd_work(const std::map<std::string, std::string> &a) {
     auto elapsed = [&] { struct timespec t; clock_gettime(CLOCK_MONOTONIC, &t); return (t.tv_sec - t0.tv_sec) + (t.tv_nsec - t0.tv_nsec) * 1e-9; };
     if (!a.count("verbose")) quiet_stdio();
 
+    if (a.count("runs-file")) {
+        // history replay: execute exactly the listed run indices, in this order, in one warm process
+        std::string txt; read_file(a.at("runs-file"), txt);
+        std::vector<uint64_t> list; { std::istringstream in(txt); uint64_t v; while (in >> v) list.push_back(v); }
+        fflush(out);
+        pid_t pid = fork();
+        if (pid == 0) {
+            shim_warm_rs();
+            Agg agg;
+            g_child_start = list.empty() ? -1 : (int64_t)list[0];
+            for (uint64_t idx : list) { progress[0] = idx; run_one(seed, idx, go, false, out, agg, per_run); }
+            agg.flush(out, 0); fflush(out); _exit(0);
+        }
+        int wst = 0; waitpid(pid, &wst, 0);
+        if (!(WIFEXITED(wst) && WEXITSTATUS(wst) == 0)) {
+            int sig = WIFSIGNALED(wst) ? WTERMSIG(wst) : 0, ec = WIFEXITED(wst) ? WEXITSTATUS(wst) : -1;
+            std::string log; if (!asan_pfx.empty()) log = first_lines(asan_pfx + "." + std::to_string(pid), 6000);
+            std::ostringstream o;
+            o << "{\"run\":" << progress[0] << ",\"crash\":1,\"signal\":" << sig << ",\"exit\":" << ec << ",\"op\":" << page->op << ",\"corrupt\":" << page->corrupt
+              << ",\"in_call\":" << page->in_call << ",\"codec\":" << page->ses_codec << ",\"what\":" << jstr((const char *)page->what) << ",\"report\":" << jstr(log) << "}\n";
+            fputs(o.str().c_str(), out);
+        }
+        fputs("{\"done\":1}\n", out); fclose(out);
+        return 0;
+    }
+
     auto report_crash = [&](pid_t pid, int wst, uint64_t run) {
         std::ostringstream o;
         int sig = WIFSIGNALED(wst) ? WTERMSIG(wst) : 0, ec = WIFEXITED(wst) ? WEXITSTATUS(wst) : -1;
         std::string log;
         if (!asan_pfx.empty()) { log = first_lines(asan_pfx + "." + std::to_string(pid), 6000); }
-        o << "{\"run\":" << run << ",\"crash\":1,\"signal\":" << sig << ",\"exit\":" << ec << ",\"op\":" << page->op << ",\"corrupt\":" << page->corrupt
+        o << "{\"run\":" << run << ",\"child_start\":" << progress[2] << ",\"crash\":1,\"signal\":" << sig << ",\"exit\":" << ec << ",\"op\":" << page->op << ",\"corrupt\":" << page->corrupt
           << ",\"in_call\":" << page->in_call << ",\"codec\":" << page->ses_codec << ",\"what\":" << jstr((const char *)page->what) << ",\"report\":" << jstr(log) << "}\n";
         fputs(o.str().c_str(), out); fflush(out);
     };
@@ -212,11 +275,13 @@ static int cmd_work(const std::map<std::string, std::string> &a) {
     // library, so that the cold-start children forked from it later are pristine.
     while (progress[0] < to && !progress[1]) {
         fflush(out);
+        progress[2] = progress[0];
         pid_t pid = fork();
         if (pid == 0) {
             shim_warm_rs();
             Agg agg;
             uint64_t i;
+            g_child_start = (int64_t)progress[0];
             for (i = progress[0]; i < to; i++) {
                 progress[0] = i;
                 if (is_cold_index(seed, i)) continue;
@@ -240,8 +305,10 @@ static int cmd_work(const std::map<std::string, std::string> &a) {
         if (!is_cold_index(seed, i)) continue;
         fflush(out);
         pid_t pid = fork();
+        progress[2] = i;
         if (pid == 0) {
             Agg agg;
+            g_child_start = (int64_t)i;
             run_one(seed, i, go, true, out, agg, per_run);
             agg.flush(out, i + 1);
             fflush(out);
